@@ -138,6 +138,10 @@ size_t varintPFOREncode(uint8_t *dst, const uint64_t *values, uint32_t count,
 
     /* Compute metadata */
     varintPFORComputeThreshold(values, count, threshold, meta);
+    if (count > 0 && meta->count != count) {
+        /* Analysis ran out of memory (metadata was zeroed) */
+        return 0;
+    }
 
     /* Write header: min, width, count */
     dst += varintTaggedPut64(dst, meta->min);
@@ -156,9 +160,9 @@ size_t varintPFOREncode(uint8_t *dst, const uint64_t *values, uint32_t count,
     if (meta->exceptionCount > 0) {
         exceptions = malloc(meta->exceptionCount * sizeof(Exception));
         if (!exceptions) {
-            /* Out of memory - fall back to encoding without exception tracking
-             * This will still produce valid output, just not optimal */
-            meta->exceptionCount = 0;
+            /* Out of memory: without the exception list the outliers cannot
+             * be stored, so report failure instead of truncating them */
+            return 0;
         }
     }
 
